@@ -8,7 +8,7 @@ import (
 )
 
 // Position returns the line and column number for a certain position in a file. It is useful for recovering the position in a file that caused an error.
-// It only treates \n, \r, and \r\n as newlines, which might be different from some languages also recognizing \f, \u2028, and \u2029 to be newlines.
+// It treats \n, \r, \r\n, \u2028, and \u2029 as newlines, which might be different from some languages also recognizing \f to be a newline.
 func Position(r io.Reader, offset int) (line, col int, context string) {
 	l := NewInput(r)
 	line = 1
@@ -56,6 +56,8 @@ func positionContext(l *Input, line, col int) (context string) {
 		c := l.Peek(0)
 		if c == 0 && l.Err() != nil || c == '\n' || c == '\r' {
 			break
+		} else if c == 0xE2 && l.Peek(1) == 0x80 && (l.Peek(2) == 0xA8 || l.Peek(2) == 0xA9) {
+			break // U+2028 and U+2029 end the line too
 		}
 		l.Move(1)
 	}
